@@ -7,6 +7,7 @@ package main
 import (
 	"fmt"
 	"go/types"
+	"strings"
 	"sync"
 )
 
@@ -267,6 +268,11 @@ func (m *Machine) endPath(outcome, detail, pos string) {
 	m.res.Detail = detail
 	if (outcome == "panic" && m.ownPanics) || (outcome == "deadlock" && (m.ownPanics || m.ownDeadlocks)) {
 		m.reportEnd(outcome, detail, pos)
+	}
+	// an unwinding or instruction limit hit in a crash-freedom harness is a
+	// hang candidate: reported only if the native replay does not finish
+	if outcome == "abort" && m.ownPanics && (strings.HasPrefix(detail, "instruction limit") || strings.HasPrefix(detail, "unwinding limit")) {
+		m.reportEnd("hang", detail, pos)
 	}
 }
 
